@@ -212,6 +212,49 @@ def _ref_prior(kind, x, p):
     raise KeyError(kind)
 
 
+def setter_custom(S, target):
+    """the same setters with a user-supplied constraint Interval(0.5, 2) on THAT parameter only (every other constraint of the
+    module keeps its default): the setter must invert with the parameter's own constraint"""
+    make, attr, shape, _ = SETTERS[target]
+    m = make()
+    raw_name = [n for n, _ in m.named_parameters() if n.endswith("raw_" + attr)][0]
+    owner = m
+    for part in raw_name.split(".")[:-1]:
+        owner = getattr(owner, part)
+    lo, hi = 0.5, 2.0
+    owner.register_constraint("raw_" + attr, Interval(lo, hi))
+    val = S.rand(*shape, lo=0.7, hi=1.8) if shape else S.rand(1, lo=0.7, hi=1.8)[0]
+    V = S.sym_tensor(val, "v")
+    for idx in np.ndindex(*V.shape):
+        CTX.assume(gt_formula(V[idx], Sym.const(lo)))
+        CTX.assume(gt_formula(Sym.const(hi), V[idx]))
+    with S.mode():
+        setattr(m, attr, val)
+        got = getattr(m, attr)
+        S.prove_eq(got, np.broadcast_to(V, tuple(got.shape)) if V.shape != tuple(got.shape) else V,
+                   "%s with its own Interval(0.5, 2) constraint: assign v then read back v" % target)
+        rawp = dict(m.named_parameters())[raw_name]
+        with torch.no_grad():
+            rawp.copy_(S.randn(*rawp.shape))
+        S.sym_tensor(rawp, "newraw")
+        after = as_sym_arr(SH.get(getattr(m, attr)))
+    for idx in np.ndindex(*after.shape):
+        S.prove_ge(after[idx], Sym.const(lo), "%s: value after arbitrary raw update >= 0.5 %s" % (target, list(idx)))
+        S.prove_ge(Sym.const(hi), after[idx], "%s: value after arbitrary raw update <= 2 %s" % (target, list(idx)))
+    for b in (0.3, 2.5):
+        m2 = make()
+        o2 = m2
+        for part in raw_name.split(".")[:-1]:
+            o2 = getattr(o2, part)
+        o2.register_constraint("raw_" + attr, Interval(lo, hi))
+        try:
+            setattr(m2, attr, torch.full(shape, b) if shape else torch.tensor(b))
+            rejected = False
+        except (RuntimeError, ValueError):
+            rejected = True
+        S.check_concrete(rejected, "%s with Interval(0.5, 2): out-of-bounds assignment %.3g is rejected" % (target, b))
+
+
 def prior(S, kind, where):
     """where: 'inside' / 'left' / 'right' (which side of a box / positive part) — both branches of piecewise densities"""
     x = S.rand(2, lo=0.4, hi=1.6)
@@ -419,6 +462,7 @@ def scenarios(tier, seed):
         add("constraint", kind="interval", tf="sigmoid", k=2)
     for t in SETTERS:
         add("setter", target=t)
+        add("setter_custom", target=t)
     for kind in ("normal", "lognormal", "gamma", "uniform", "halfcauchy", "halfnormal", "horseshoe"):
         add("prior", kind=kind, where="inside")
     for w in ("inside", "left", "right"):
